@@ -19,7 +19,7 @@ pub enum Mode {
 enum ThState {
   Runnable,
   WantLock { lock: usize, mode: Mode },
-  CvWait { cv: usize, lock: usize },
+  CvWait { cv: usize, lock: usize, until: Option<u64> },
   Sleeping { until: u64 },
   JoinWait { tid: usize },
   Finished,
@@ -160,7 +160,7 @@ impl Rt {
     match &self.threads[t].state {
       ThState::Runnable => true,
       ThState::WantLock { lock, mode } => self.lock_available(t, *lock, *mode),
-      ThState::CvWait { .. } => false,
+      ThState::CvWait { until, .. } => until.map(|u| u <= self.clock).unwrap_or(false),
       ThState::Sleeping { until } => *until <= self.clock,
       ThState::JoinWait { tid } => self.threads[*tid].state == ThState::Finished,
       ThState::Finished => false,
@@ -192,7 +192,11 @@ impl Rt {
         let wake = self
           .threads
           .iter()
-          .filter_map(|th| if let ThState::Sleeping { until } = th.state { Some(until) } else { None })
+          .filter_map(|th| match th.state {
+            ThState::Sleeping { until } => Some(until),
+            ThState::CvWait { until: Some(u), .. } => Some(u),
+            _ => None,
+          })
           .min();
         if let Some(w) = wake {
           self.clock = w;
@@ -858,6 +862,14 @@ impl<'a, T> Drop for MutexGuard<'a, T> {
   }
 }
 
+/// facade twin of std::sync::WaitTimeoutResult
+#[derive(Debug, PartialEq, Eq, Copy, Clone)]
+pub struct WaitTimeoutResult(bool);
+impl WaitTimeoutResult {
+  pub fn timed_out(&self) -> bool {
+    self.0
+  }
+}
 pub struct Condvar {
   inner: ss::Condvar,
   id: ss::Mutex<Option<usize>>,
@@ -878,15 +890,31 @@ impl Condvar {
     *g = Some(i);
     i
   }
-  pub fn wait<'a, T>(&self, mut guard: MutexGuard<'a, T>) -> LockResult<MutexGuard<'a, T>> {
+  pub fn wait<'a, T>(&self, guard: MutexGuard<'a, T>) -> LockResult<MutexGuard<'a, T>> {
+    match self.wait_deadline(guard, None) {
+      Ok((g, _)) => Ok(g),
+      Err(e) => Err(PoisonError::new(e.into_inner().0)),
+    }
+  }
+  /// wait with an optional (virtual-time) timeout; the bool is "timed out"
+  fn wait_deadline<'a, T>(&self, mut guard: MutexGuard<'a, T>, dur: Option<Duration>) -> LockResult<(MutexGuard<'a, T>, bool)> {
     match guard.rel {
       None => {
         let m = guard.m;
         let real = guard.g.take().unwrap();
         std::mem::forget(guard);
-        match self.inner.wait(real) {
-          Ok(g) => Ok(MutexGuard { g: Some(g), m, rel: None }),
-          Err(e) => Err(PoisonError::new(MutexGuard { g: Some(e.into_inner()), m, rel: None })),
+        match dur {
+          None => match self.inner.wait(real) {
+            Ok(g) => Ok((MutexGuard { g: Some(g), m, rel: None }, false)),
+            Err(e) => Err(PoisonError::new((MutexGuard { g: Some(e.into_inner()), m, rel: None }, false))),
+          },
+          Some(d) => match self.inner.wait_timeout(real, d) {
+            Ok((g, t)) => Ok((MutexGuard { g: Some(g), m, rel: None }, t.timed_out())),
+            Err(e) => {
+              let (g, t) = e.into_inner();
+              Err(PoisonError::new((MutexGuard { g: Some(g), m, rel: None }, t.timed_out())))
+            }
+          },
         }
       }
       Some((me, lock)) => {
@@ -899,21 +927,63 @@ impl Condvar {
         let mut g = RT.lock().unwrap();
         let rt = g.as_mut().unwrap();
         rt.locks[lock].writer = None;
-        rt.threads[me].state = ThState::CvWait { cv, lock };
+        let until = dur.map(|d| rt.clock + d.as_nanos() as u64);
+        rt.threads[me].state = ThState::CvWait { cv, lock, until };
         if rt.log_locks {
           rt.ev(me, format!("cvwait cv#{} rel #{}", cv, lock));
         }
         reschedule(g, me);
-        // we were notified (state was changed to WantLock by the notifier) and the lock is available
-        with_rt(|rt| {
-          rt.locks[lock].writer = Some(me);
-          rt.threads[me].state = ThState::Runnable;
-          if rt.log_locks {
-            rt.ev(me, format!("cvwake cv#{} acq #{}", cv, lock));
-          }
-        });
-        m.take_real(me, lock)
+        // either a notifier turned us into WantLock (and the lock is available), or the deadline passed
+        let timed_out = with_rt(|rt| matches!(rt.threads[me].state, ThState::CvWait { .. }));
+        if timed_out {
+          // re-acquire the mutex like any other locker
+          acquire(me, lock, Mode::W);
+        } else {
+          with_rt(|rt| {
+            rt.locks[lock].writer = Some(me);
+            rt.threads[me].state = ThState::Runnable;
+            if rt.log_locks {
+              rt.ev(me, format!("cvwake cv#{} acq #{}", cv, lock));
+            }
+          });
+        }
+        match m.take_real(me, lock) {
+          Ok(g) => Ok((g, timed_out)),
+          Err(e) => Err(PoisonError::new((e.into_inner(), timed_out))),
+        }
       }
+    }
+  }
+  pub fn wait_timeout<'a, T>(&self, guard: MutexGuard<'a, T>, dur: Duration) -> LockResult<(MutexGuard<'a, T>, WaitTimeoutResult)> {
+    match self.wait_deadline(guard, Some(dur)) {
+      Ok((g, t)) => Ok((g, WaitTimeoutResult(t))),
+      Err(e) => {
+        let (g, t) = e.into_inner();
+        Err(PoisonError::new((g, WaitTimeoutResult(t))))
+      }
+    }
+  }
+  pub fn wait_timeout_while<'a, T, F>(&self, mut guard: MutexGuard<'a, T>, dur: Duration, mut condition: F) -> LockResult<(MutexGuard<'a, T>, WaitTimeoutResult)>
+  where
+    F: FnMut(&mut T) -> bool,
+  {
+    let start = now();
+    loop {
+      if !condition(&mut *guard) {
+        return Ok((guard, WaitTimeoutResult(false)));
+      }
+      let elapsed = Duration::from_nanos(now().saturating_sub(start));
+      let left = match dur.checked_sub(elapsed) {
+        Some(l) if !l.is_zero() => l,
+        _ => return Ok((guard, WaitTimeoutResult(true))),
+      };
+      guard = match self.wait_deadline(guard, Some(left)) {
+        Ok((g, _)) => g,
+        Err(e) => {
+          let (g, t) = e.into_inner();
+          return Err(PoisonError::new((g, WaitTimeoutResult(t))));
+        }
+      };
     }
   }
   pub fn wait_while<'a, T, F>(&self, mut guard: MutexGuard<'a, T>, mut condition: F) -> LockResult<MutexGuard<'a, T>>
